@@ -1,6 +1,7 @@
 package harness
 
 import (
+	"encoding/json"
 	"fmt"
 	"sort"
 	"testing"
@@ -117,6 +118,11 @@ func sparseOptimalCost(fed []byte, idx map[uint32][]int32, g, off, w, n, win, mi
 }
 
 func checkFar(c farCase) (msg string, bad bool, matches int, err error) {
+	return checkFarFor(c, "C11")
+}
+
+// checkFarFor: prop "C01" only looks at the expansion of the blocks.
+func checkFarFor(c farCase, prop string) (msg string, bad bool, matches int, err error) {
 	x, err := newParserExec(c.Cfg)
 	if err != nil {
 		return "", false, 0, errConfigRejected
@@ -135,6 +141,12 @@ func checkFar(c farCase) (msg string, bad bool, matches int, err error) {
 	}
 	if x.dead {
 		return "", false, 0, nil
+	}
+	if prop == "C01" {
+		for _, b := range x.blocks {
+			matches += len(b.Seqs)
+		}
+		return "", false, matches, nil
 	}
 	g := 3
 	if x.cc.MinMatchLen == 2 {
@@ -169,13 +181,16 @@ func TestC11Far(t *testing.T) {
 			MaxMatchLen: rapid.SampledFrom([]int{0, 273, 8, 1 << 32}).Draw(t, "maxMatch"),
 			WindowSize:  rapid.SampledFrom([]int{0, 1 << 20, 1<<20 + 1, 1<<20 - 1, 2 << 20, 1 << 19}).Draw(t, "win"),
 			BufferSize:  rapid.SampledFrom([]int{0, 2 << 20, 3 << 20}).Draw(t, "buf"),
-			BlockSize:   rapid.SampledFrom([]int{0, 65536, 1 << 20, 100_000}).Draw(t, "blk"),
+			BlockSize:   rapid.SampledFrom([]int{0, 65536, 1 << 20, 100_000, 2 << 20, 1<<20 + 65536}).Draw(t, "blk"),
 		}
 		if c.Cfg.MaxMatchLen != 0 && c.Cfg.MaxMatchLen < maxInt(c.Cfg.MinMatchLen, 3) {
 			c.Cfg.MaxMatchLen = maxInt(c.Cfg.MinMatchLen, 3)
 		}
 		if c.Cfg.BufferSize == 0 && c.Cfg.WindowSize != 0 && c.Cfg.WindowSize < c.Len {
 			c.Cfg.BufferSize = 2 << 20 // the default buffer is the window: make room for the text
+		}
+		if c.Cfg.BlockSize > 1<<20 && c.Cfg.BufferSize != 0 && c.Cfg.BufferSize < c.Cfg.BlockSize {
+			c.Cfg.BufferSize = 3 << 20
 		}
 		mm := c.Cfg.MinMatchLen
 		if mm == 0 {
@@ -195,8 +210,13 @@ func TestC11Far(t *testing.T) {
 			default:
 				d = rapid.SampledFrom(dists).Draw(t, "distPow")
 			}
-			l := rapid.SampledFrom([]int{mm, mm, mm + 1, mm + 2, 8, 9, 24, 2, 3}).Draw(t, "plantLen")
+			l := rapid.SampledFrom([]int{mm, mm, mm + 1, mm + 2, 8, 9, 24, 2, 3, 200}).Draw(t, "plantLen")
 			pos := d + rapid.IntRange(0, maxInt(c.Len-d-l-1, 0)).Draw(t, "plantAt")
+			if rapid.IntRange(0, 5).Draw(t, "plantAcrossMiB") == 0 && l > 1 && d < 1<<20-l {
+				// the copy lies across stream position 2^20 (with blocks of
+				// more than a MiB: across byte 2^20 of the block)
+				pos = 1<<20 - rapid.IntRange(1, l-1).Draw(t, "plantBefore")
+			}
 			c.Plants = append(c.Plants, [3]int{pos, d, l})
 		}
 		beginCase("C11", "far", func() any { return c })
@@ -213,4 +233,60 @@ func TestC11Far(t *testing.T) {
 		}
 		st.eval([]string{"far:text>1MiB"}, matches > 0, hashJSON(c), "far", func() any { return c })
 	})
+}
+
+// TestC01Far: the texts of TestC11Far with 2.1 to 2.6 MiB (more than 2^21
+// positions in one edge table of OSAP, many blocks served from it), judged for
+// C01: the blocks expand to the text.
+func TestC01Far(t *testing.T) {
+	st := statsFor("C01")
+	rapid.Check(t, func(t *rapid.T) {
+		c := farCase{Seed: rapid.Uint64().Draw(t, "seed")}
+		c.Len = 2<<20 + 100_000 + 65536*rapid.IntRange(0, 7).Draw(t, "lenExtra")
+		c.Cfg = PCfg{Kind: "OSAP",
+			MinMatchLen: rapid.SampledFrom([]int{0, 3, 4}).Draw(t, "minMatch"),
+			BufferSize:  rapid.SampledFrom([]int{0, 3 << 20}).Draw(t, "buf"),
+			BlockSize:   rapid.SampledFrom([]int{0, 65536, 1 << 20}).Draw(t, "blk"),
+		}
+		for k := rapid.IntRange(20, 60).Draw(t, "plants"); k > 0; k-- {
+			d := rapid.IntRange(1, c.Len-100).Draw(t, "dist")
+			l := rapid.SampledFrom([]int{3, 4, 5, 8, 24, 200}).Draw(t, "plantLen")
+			pos := d + rapid.IntRange(0, maxInt(c.Len-d-l-1, 0)).Draw(t, "plantAt")
+			c.Plants = append(c.Plants, [3]int{pos, d, l})
+		}
+		beginCase("C01", "far", func() any { return c })
+		defer endCase()
+		msg, bad, matches, err := checkFarFor(c, "C01")
+		endCase()
+		if err != nil {
+			st.class("config-rejected")
+			return
+		}
+		if bad {
+			recordFailure("C01", "far", c, msg)
+			t.Fatalf("C01 violated (far): %s", msg)
+		}
+		st.eval([]string{"far:text>2MiB"}, matches > 0, hashJSON(c), "far", func() any { return c })
+	})
+}
+
+func init() {
+	for _, prop := range []string{"C01", "C11"} {
+		prop := prop
+		prev := replayers[prop]
+		replayers[prop] = func(raw json.RawMessage) (string, bool, error) {
+			var probe struct {
+				Plants *json.RawMessage `json:"plants"`
+			}
+			if err := json.Unmarshal(raw, &probe); err == nil && probe.Plants != nil {
+				var c farCase
+				if err := json.Unmarshal(raw, &c); err != nil {
+					return "", false, err
+				}
+				msg, bad, _, err := checkFarFor(c, prop)
+				return msg, bad, err
+			}
+			return prev(raw)
+		}
+	}
 }
